@@ -71,14 +71,15 @@ TRun ==
                hit |-> Rec.hit, err |-> (Rec.err # ""), nerrs |-> Rec.nerrs,
                prevSame |-> SameResults(tprev, in), prevCreates |-> tprevCreates,
                streak |-> IF Rec.hit THEN 0 ELSE IF SameResults(tprev, in) THEN tstreak + 1 ELSE 1]
-         fails == DocFails(o)
+         fails == DocFailsAll(o)
          \* binding 1: makeComments
-         mk == MakeComments(R, v)
+         mk == PendingOf(tcfg, R, v)
          mkOK == /\ Len(mk) = Len(pend)
                  /\ \A k \in 1..Len(mk) : mk[k].path = pend[k].path /\ mk[k].line = pend[k].line /\ mk[k].text.m = pend[k].text.m /\ mk[k].anchor = pend[k].anchor
          newmap == tmap \cup (IF Len(mk) = Len(pend) THEN {<<mk[k].text, pend[k].text.id>> : k \in 1..Len(mk)} ELSE {})
          \* binding 2: updateDestination on the recorded pending comments
-         f == RunFold(tcfg, tstore, pend, v, ft)
+         f == IF tcfg.plat = "bitbucket" THEN BBFold(tcfg, tstore, pend, AbsText("", Rec.notice, <<>>))
+                                          ELSE RunFold(tcfg, tstore, pend, v, ft)
          \* over REST only the calls that change the store are visible (creations, then deletions)
          storeCall(c) == c.op \in {"create", "delete"}
          foldOK == /\ IF Rec.callsobs THEN f.listed = Rec.listed /\ f.calls = Rec.calls
